@@ -284,10 +284,11 @@ func structKey(t types.Type) string {
 type TypeTags struct {
 	byKey map[string]int
 	types []types.Type
+	byID  map[int]types.Type
 }
 
 func newTypeTags() *TypeTags {
-	return &TypeTags{byKey: map[string]int{}, types: []types.Type{nil}}
+	return &TypeTags{byKey: map[string]int{}, types: []types.Type{nil}, byID: map[int]types.Type{}}
 }
 
 func (tt *TypeTags) tagNamed(k string) int {
@@ -300,15 +301,35 @@ func (tt *TypeTags) tagNamed(k string) int {
 	return id
 }
 
+// tag numbers the Go types that occur as dynamic types of interface values. Only equality of tags is
+// meaningful, except that bits 20..23 hold the number of bytes encoding/binary writes for a value of the type
+// (fixed-size integer, float and bool types; 0 otherwise), so that this size is a function of the tag.
 func (tt *TypeTags) tag(t types.Type) int {
 	k := typeKey(t)
 	if id, ok := tt.byKey[k]; ok {
 		return id
 	}
-	id := len(tt.types)
+	id := len(tt.types) | fixedBinarySize(t)<<20
 	tt.byKey[k] = id
 	tt.types = append(tt.types, t)
+	tt.byID[id] = t
 	return id
+}
+
+func fixedBinarySize(t types.Type) int {
+	if b, ok := t.Underlying().(*types.Basic); ok {
+		switch b.Kind() {
+		case types.Bool, types.Int8, types.Uint8:
+			return 1
+		case types.Int16, types.Uint16:
+			return 2
+		case types.Int32, types.Uint32, types.Float32:
+			return 4
+		case types.Int64, types.Uint64, types.Float64:
+			return 8
+		}
+	}
+	return 0
 }
 
 // ---------------------------------------------------------------------------
